@@ -6,6 +6,7 @@ import (
 	"io"
 	"os"
 	"os/exec"
+	"runtime/debug"
 	"strings"
 	"syscall"
 	"time"
@@ -20,6 +21,7 @@ type Isolated struct {
 	cmd     *exec.Cmd
 	in      io.WriteCloser
 	out     *bufio.Reader
+	crash   string // file the child's runtime writes its fatal message to
 }
 
 func (c *Isolated) start() error {
@@ -28,7 +30,14 @@ func (c *Isolated) start() error {
 		return err
 	}
 	cmd := exec.Command(exe, "-childexec", c.Prop)
-	cmd.Env = append(os.Environ(), "GOMEMLIMIT=3GiB", "VERIF_CHILD=1")
+	if c.crash == "" {
+		if f, err := os.CreateTemp("", "verif-crash-*.txt"); err == nil {
+			c.crash = f.Name()
+			f.Close()
+		}
+	}
+	os.Truncate(c.crash, 0)
+	cmd.Env = append(os.Environ(), "GOMEMLIMIT=3GiB", "VERIF_CHILD=1", "VERIF_CRASH_FILE="+c.crash)
 	cmd.Stderr = nil
 	in, err := cmd.StdinPipe()
 	if err != nil {
@@ -92,7 +101,20 @@ func (c *Isolated) Exec(op string) string {
 				}
 				c.cmd = nil
 			}
-			return "crashed " + strings.ReplaceAll(st, " ", "-")
+			// what the runtime said when it died (panic message or fatal error), first line
+			why := ""
+			if b, err := os.ReadFile(c.crash); err == nil {
+				for _, l := range strings.Split(string(b), "\n") {
+					if strings.HasPrefix(l, "panic:") || strings.HasPrefix(l, "fatal error:") || strings.HasPrefix(l, "runtime:") {
+						if len(l) > 160 {
+							l = l[:160]
+						}
+						why = " " + strings.ReplaceAll(l, " ", "_")
+						break
+					}
+				}
+			}
+			return "crashed " + strings.ReplaceAll(st, " ", "-") + why
 		}
 		return strings.TrimRight(r.line, "\n")
 	case <-time.After(to):
@@ -101,7 +123,13 @@ func (c *Isolated) Exec(op string) string {
 	}
 }
 
-func (c *Isolated) Close() { c.kill() }
+func (c *Isolated) Close() {
+	c.kill()
+	if c.crash != "" {
+		os.Remove(c.crash)
+		c.crash = ""
+	}
+}
 
 // ChildLoop is the child side: executes ops from stdin with the property's Exec and prints one line each.
 func ChildLoop(p Prop) {
@@ -117,6 +145,11 @@ func ChildLoop(p Prop) {
 	if devnull, err := os.OpenFile(os.DevNull, os.O_WRONLY, 0); err == nil {
 		syscall.Dup2(int(devnull.Fd()), 1)
 		syscall.Dup2(int(devnull.Fd()), 2)
+	}
+	if cf := os.Getenv("VERIF_CRASH_FILE"); cf != "" {
+		if f, err := os.OpenFile(cf, os.O_WRONLY|os.O_CREATE|os.O_TRUNC, 0o644); err == nil {
+			debug.SetCrashOutput(f, debug.CrashOptions{})
+		}
 	}
 	sc := bufio.NewScanner(os.Stdin)
 	sc.Buffer(make([]byte, 1<<20), 1<<28)
